@@ -682,8 +682,12 @@ class PrefixVerified(VerificationStrategy[WC, W]):
     """Verifies every non-atom, non-empty class whose prefix has at least `minlen`
     letters; enumerates by brute force and offers a pack (atoms only) to expand it."""
 
-    def __init__(self, minlen=1, ignore_parent=False):
+    def __init__(self, minlen=1, ignore_parent=False, nest=0):
         self.minlen = int(minlen)
+        # nest > 0: the pack offered for a verified class verifies in turn (prefixes one
+        # letter longer, nest - 1 further levels), so expanding a verified class brings
+        # new verified classes into the specification
+        self.nest = int(nest)
         super().__init__(ignore_parent=ignore_parent)
 
     def verified(self, c):
@@ -724,11 +728,14 @@ class PrefixVerified(VerificationStrategy[WC, W]):
         return f"prefix of length >= {self.minlen} (brute force)"
 
     def pack(self, c):
+        if self.nest > 0:
+            return make_pack({"ver": f"prefix{self.minlen + 1}", "nest": self.nest - 1})
         return make_pack({"ver": "atom"})
 
     def to_jsonable(self):
         d = super().to_jsonable()
         d["minlen"] = self.minlen
+        d["nest"] = self.nest
         return d
 
     @classmethod
@@ -736,7 +743,7 @@ class PrefixVerified(VerificationStrategy[WC, W]):
         return cls(**d)
 
     def __repr__(self):
-        return f"PrefixVerified(minlen={self.minlen})"
+        return f"PrefixVerified(minlen={self.minlen}{', nest=%d' % self.nest if self.nest else ''})"
 
 
 # ----------------------------------------------------------------------------- packs
@@ -744,8 +751,23 @@ class PrefixVerified(VerificationStrategy[WC, W]):
 PACK_DEFAULTS = {
     "drop": False, "order": 0, "atom_last": False, "split": False, "plus": False, "swap": False,
     "sym": False, "inferral": [], "layout": "initial", "factory": None,
-    "ver": "stat", "iterative": False,
+    "ver": "stat", "iterative": False, "nest": 0,
 }
+
+
+def offered_packs(opts):
+    """The packs that the verification strategies of make_pack(opts) can offer, nested
+    ones included (for monitors that judge pack membership of re-applied rules)."""
+    o = dict(PACK_DEFAULTS)
+    o.update(opts or {})
+    out = []
+    if str(o["ver"]).startswith("prefix"):
+        k, nest = int(o["ver"][6:]), int(o.get("nest", 0))
+        while nest > 0:
+            k, nest = k + 1, nest - 1
+            out.append(make_pack({"ver": f"prefix{k}", "nest": nest}))
+        out.append(make_pack({"ver": "atom"}))
+    return out
 
 
 def make_pack(opts=None):
@@ -782,7 +804,7 @@ def make_pack(opts=None):
     elif o["ver"] == "libatom":
         ver = [AtomStrategy()]
     else:
-        ver = [StatAtom(), PrefixVerified(int(o["ver"][-1]))]
+        ver = [StatAtom(), PrefixVerified(int(o["ver"][6:]), nest=int(o.get("nest", 0)))]
     return StrategyPack(
         initial_strats=initial,
         inferral_strats=inferral,
